@@ -45,7 +45,10 @@ def bridge(ts):
         for sp, ty in (("s", "Option<%s>"), ("d", "DiplomatOption<%s>")):
             L.append("        pub fn t_%s_%s(x: %s) { let _ = x; }" % (sp, t["key"], ty % t["rust"]))
             L.append("        pub fn u_%s_%s(a: u8, x: %s, b: u16) { let _ = (a, x, b); }" % (sp, t["key"], ty % t["rust"]))
-    L += ["    }", "}"]
+    # optional pointers coming back: an absent one is the null pointer, owned or borrowed, bare, in an out-struct field, in a Result arm
+    L += ["        pub fn rbox() -> Option<Box<Op>> { None }", "        pub fn rref<'a>(&'a self) -> Option<&'a Op> { None }",
+          "        pub fn rout() -> OutO { unimplemented!() }", "        pub fn rres() -> Result<Option<Box<Op>>, ()> { Ok(None) }"]
+    L += ["    }", "    #[diplomat::out]", "    pub struct OutO { pub o: Option<Box<Op>>, pub n: u32 }", "}"]
     return "\n".join(L) + "\n"
 
 
@@ -108,6 +111,27 @@ for (const c of job.calls) {
     } catch (e) { rec.error = String(e).slice(0, 200); }
     out.push(rec);
 }
+// ---- optional pointers returned by the export
+const rt = await import("./diplomat-runtime.mjs");
+const ptrs = [];
+const show = (x) => x === null ? "null" : x === undefined ? "undefined" : (typeof x === "object" && "ffiValue" in x) ? "ptr:" + x.ffiValue : "other:" + String(x);
+for (const p of [0, 0x3000]) {
+    const rec = { p };
+    try { st.ret["Op_rbox"] = p; rec.rbox = show(api.Op.rbox()); } catch (e) { rec.rbox = "throws:" + String(e).slice(0, 80); }
+    try { st.ret["Op_rref"] = p; const self = new api.Op(rt.internalConstructor, 0x2000, [1]); rec.rref = show(self.rref()); } catch (e) { rec.rref = "throws:" + String(e).slice(0, 80); }
+    try {
+        st.hooks["Op_rout"] = (args) => { const dv = new DataView(wasm.memory.buffer); dv.setUint32(args[0], p, true); dv.setUint32(args[0] + 4, 77, true); return undefined; };
+        const o = api.Op.rout(); rec.rout = show(o.o) + ",n=" + o.n;
+    } catch (e) { rec.rout = "throws:" + String(e).slice(0, 80); }
+    delete st.hooks["Op_rout"];
+    try {
+        st.hooks["Op_rres"] = (args) => { const dv = new DataView(wasm.memory.buffer); dv.setUint32(args[0], p, true); dv.setUint8(args[0] + 4, 1); return undefined; };
+        rec.rres = show(api.Op.rres());
+    } catch (e) { rec.rres = "throws:" + String(e).slice(0, 80); }
+    delete st.hooks["Op_rres"];
+    ptrs.push(rec);
+}
+out.push({ id: "$ptrs", ptrs });
 fs.writeFileSync(process.argv[3], JSON.stringify(out));
 """
 
@@ -146,6 +170,19 @@ def js_half(rep, wd):
         if q.returncode != 0:
             raise MachineryError("node driver for option parameters failed (%s): %s" % (abi, q.stderr[-1500:]))
         res = json.load(open(rp))
+        extra = [r for r in res if r.get("id") == "$ptrs"]
+        res = [r for r in res if r.get("id") != "$ptrs"]
+        if len(extra) != 1 or len(extra[0]["ptrs"]) != 2:
+            raise MachineryError("optional-pointer section missing from the driver output")
+        for rec in extra[0]["ptrs"]:
+            want = "null" if rec["p"] == 0 else "ptr:%d" % rec["p"]
+            for fn, w in (("rbox", want), ("rref", want), ("rout", want + ",n=77"), ("rres", want)):
+                judged += 1
+                if rec.get(fn) != w:
+                    rep.violation("C10|js-%s|optional-pointer-return|%s|%s" % (abi, fn, "absent" if rec["p"] == 0 else "present"),
+                                  {"method": {"rbox": "-> Option<Box<Op>>", "rref": "-> Option<&Op>", "rout": "-> OutO { o: Option<Box<Op>>, n: u32 }", "rres": "-> Result<Option<Box<Op>>, ()>"}[fn],
+                                   "export_answers": rec["p"], "js_value": rec.get(fn)},
+                                  "js.abi=%s: %s with the export answering pointer %d arrives in JS as %s, expected %s" % (abi, fn, rec["p"], rec.get(fn), w))
         for c, r in zip(calls, res):
             t, v = c["_t"], c["_v"]
             what = "%s(%s%s = %s)" % (c["fn"], "3, " if c["between"] else "", ("Option<%s>" if c["_sp"] == "s" else "DiplomatOption<%s>") % t["rust"], "None" if v is None else "Some(%r)" % (v,))
